@@ -15,7 +15,11 @@ SAFE = ['planet_mass', 'planet_radius', 'T', 'clouds_pressure',
 
 
 def gen_config(rng):
-    mcfg = R.gen_model_cfg(rng, family='transmission',
+    # (emission and direct-image models declare parameters on the model
+    # object itself)
+    mcfg = R.gen_model_cfg(rng, family=rng.choice(['transmission',
+                                                   'transmission', 'emission',
+                                                   'directimage']),
                            contribs=['Absorption'] +
                            [c for c in ('CIA', 'Rayleigh', 'SimpleClouds')
                             if rng.random() < 0.6])
